@@ -2,7 +2,9 @@
 //!
 //! `OwnershipRegisters` cannot be named outside fuel-vm, so the owner-checked `MemoryInstance::write` is reached
 //! through the store instructions of a REAL interpreter whose `$ssp/$sp/$hp` registers are set to chosen values:
-//! `MCL`/`MCLI` (`write(owner, a, n)` then fill 0), `SB`/`SW` (`write_bytes(owner, a+imm·size, …)`). `prev_hp`
+//! `MCL`/`MCLI` (`write(owner, a, n)` then fill 0), `SB`/`SW` (`write_bytes(owner, a+imm·size, …)`), and through writers
+//! whose write sits on a failure / alternative path: `ECK1`/`ECR1` with an unrecoverable signature (zero fill), `S256`/`K256`,
+//! `BHSH` of a future height, `WDDV`/`WQAM` with a zero divisor/modulus under UNSAFEMATH (`$err = 1`). `prev_hp`
 //! comes from the interpreter's real call frames: a script-context VM (`prev_hp = VM_MAX_RAM`) and VMs stopped
 //! inside a real `CALL` made after the script allocated `H` bytes of heap (`prev_hp = VM_MAX_RAM − H`).
 //!
@@ -86,8 +88,11 @@ pub fn panic_of<E: std::fmt::Debug>(e: &InterpreterError<E>) -> String {
 
 pub struct Prog {
     pub script: Vec<Instruction>,
-    /// extra script data after the two call structures (see `script_data`)
     pub contracts: Vec<Vec<Instruction>>,
+    /// bytes appended to the script data after the call structures and the 32 zero bytes
+    pub extra_data: Vec<u8>,
+    /// a blob to put into storage before the script runs (for BLDD)
+    pub blob: Option<Vec<u8>>,
 }
 
 pub struct Built {
@@ -113,6 +118,8 @@ pub fn build(seed: u64, p: &Prog) -> Built {
     let mut data = vec![];
     for id in &ids { data.extend_from_slice(id.as_ref()); data.extend_from_slice(&[0u8; 16]); }
     data.extend_from_slice(&[0u8; 32]);
+    data.extend_from_slice(&p.extra_data);
+    if let Some(blob) = &p.blob { tb.setup_blob(blob.clone()); }
     tb.start_script(p.script.clone(), data).script_gas_limit(2_000_000);
     for id in &ids { tb.contract_input(*id); }
     tb.fee_input();
@@ -178,7 +185,7 @@ pub fn vm_in_call(seed: u64, heap: u64) -> Vm {
     script.push(op::ret(RegId::ONE));
     // the callee grows its own stack and heap a little, then idles
     let contract = vec![op::cfei(256), op::movi(0x14, 128), op::aloc(0x14), op::noop(), op::noop(), op::ret(RegId::ONE)];
-    let mut b = build(seed, &Prog { script, contracts: vec![contract] });
+    let mut b = build(seed, &Prog { script, contracts: vec![contract], extra_data: vec![], blob: None });
     let mut st = start(&mut b);
     let mut guard = 0;
     loop {
@@ -201,7 +208,7 @@ pub fn vm_in_call(seed: u64, heap: u64) -> Vm {
 // instruction-level ownership cases
 
 #[derive(Clone, Copy, Debug)]
-enum StoreOp { Mcl, Mcli, Sb, Sw }
+enum StoreOp { Mcl, Mcli, Sb, Sw, Eck1Bad, Ecr1Bad, S256, K256, Bhsh, WddvErr, WqamErr }
 
 struct Case { own: Own, addr: u128, len: u64 }
 
@@ -239,6 +246,35 @@ fn exec_store(vm: &mut Vm, opk: StoreOp, c: &Case, fill: u8) -> Option<Result<()
             if base > u64::MAX as u128 { return restore(vm, saved, mem_hp, None); }
             r[0x20] = base as u64; op::sw(0x20, 0x21, k as u16)
         }
+        // writers whose write happens on a failure / alternative path; sources are the readable zero bytes at address 0
+        StoreOp::Eck1Bad | StoreOp::Ecr1Bad => {
+            // an all-zero signature is unrecoverable: the instruction zero-fills the 64-byte destination and sets $err
+            if c.len != 64 || c.addr > u64::MAX as u128 { return restore(vm, saved, mem_hp, None); }
+            r[0x20] = c.addr as u64; r[0x22] = 0; r[0x23] = 0;
+            if matches!(opk, StoreOp::Eck1Bad) { op::eck1(0x20, 0x22, 0x23) } else { op::ecr1(0x20, 0x22, 0x23) }
+        }
+        StoreOp::S256 | StoreOp::K256 => {
+            if c.len != 32 || c.addr > u64::MAX as u128 { return restore(vm, saved, mem_hp, None); }
+            r[0x20] = c.addr as u64; r[0x22] = 0; r[0x23] = 8;
+            if matches!(opk, StoreOp::S256) { op::s256(0x20, 0x22, 0x23) } else { op::k256(0x20, 0x22, 0x23) }
+        }
+        StoreOp::Bhsh => {
+            // a block height in the future: the zero hash is written
+            if c.len != 32 || c.addr > u64::MAX as u128 { return restore(vm, saved, mem_hp, None); }
+            r[0x20] = c.addr as u64; r[0x22] = 1_000_000;
+            op::bhsh(0x20, 0x22)
+        }
+        StoreOp::WddvErr => {
+            // 0 / 0 with UNSAFEMATH: $err = 1 and the 16 zero result bytes are written
+            if c.len != 16 || c.addr > u64::MAX as u128 { return restore(vm, saved, mem_hp, None); }
+            r[0x20] = c.addr as u64; r[0x22] = 0; r[0x23] = 0; r[15] = 1;
+            op::wddv_args(0x20, 0x22, 0x23, fuel_vm::fuel_asm::wideint::DivArgs { indirect_rhs: true })
+        }
+        StoreOp::WqamErr => {
+            if c.len != 32 || c.addr > u64::MAX as u128 { return restore(vm, saved, mem_hp, None); }
+            r[0x20] = c.addr as u64; r[0x22] = 0; r[0x23] = 0; r[0x24] = 0; r[15] = 1;
+            op::wqam(0x20, 0x22, 0x23, 0x24)
+        }
     };
     let res = match vm.instruction::<_, false>(ins) {
         Ok(_) => Ok(()),
@@ -257,10 +293,14 @@ fn one_case(ctx: &mut Ctx, vm: &mut Vm, tag: &str, c: Case) {
     let sl = vm.memory().stack_raw().len() as u64;
     let prev = prev_hp_of(vm);
     debug_assert_eq!(prev, c.own.prev_hp);
-    let ops: &[StoreOp] = &[StoreOp::Mcl, StoreOp::Mcli, StoreOp::Sb, StoreOp::Sw];
+    // plain stores first for the small lengths; for 16 / 32 / 64 bytes prefer the writers with a failure / alternative path
+    let plain: &[StoreOp] = &[StoreOp::Mcl, StoreOp::Mcli, StoreOp::Sb, StoreOp::Sw];
+    let alt: &[StoreOp] = match c.len { 64 => &[StoreOp::Eck1Bad, StoreOp::Ecr1Bad], 32 => &[StoreOp::S256, StoreOp::K256, StoreOp::Bhsh, StoreOp::WqamErr], 16 => &[StoreOp::WddvErr], _ => &[] };
+    let mut ops: Vec<StoreOp> = vec![];
+    if !alt.is_empty() && ctx.rng.chance(3, 4) { let k = ctx.rng.below(alt.len() as u64) as usize; for i in 0..alt.len() { ops.push(alt[(k + i) % alt.len()]); } }
     let start = ctx.rng.below(4) as usize;
-    for i in 0..4 {
-        let opk = ops[(start + i) % 4];
+    for i in 0..4 { ops.push(plain[(start + i) % 4]); }
+    for opk in ops {
         let before = snapshot(vm, mem_hp);
         let fill = (ctx.rng.next() as u8) | 1;
         let Some(res) = exec_store(vm, opk, &c, fill) else { continue };
@@ -327,7 +367,7 @@ fn cases_on(ctx: &mut Ctx, vm: &mut Vm, tag: &str, n: u64) {
             6 => { own.ssp = ctx.rng.word(); own.sp = ctx.rng.word(); own.hp = ctx.rng.word(); }
             _ => {}
         }
-        let len = match ctx.rng.below(8) { 0 => 0, 1 | 2 => 1, 3 | 4 => 8, 5 => *ctx.rng.pick(&[2u64, 7, 9, 16, 32, 33, 64, 255, 256]), 6 => ctx.rng.word(), _ => ctx.rng.below(200) };
+        let len = match ctx.rng.below(10) { 0 => 0, 1 | 2 => 1, 3 | 4 => 8, 5 => *ctx.rng.pick(&[2u64, 7, 9, 16, 32, 33, 64, 255, 256]), 6 => ctx.rng.word(), 7 | 8 => *ctx.rng.pick(&[16u64, 32, 32, 64, 64]), _ => ctx.rng.below(200) };
         let own_anchors = [own.ssp, own.sp, own.hp, own.prev_hp, sl, mem_hp, m, 0];
         let addr: u128 = match ctx.rng.below(12) {
             0 => ctx.rng.word() as u128,
